@@ -2828,7 +2828,14 @@ impl<'a> Socket<'a> {
         }
         self.ack_delay_timer = AckDelayTimer::Idle;
 
-        // Every segment, including a zero-window probe or a keep-alive, carries our current
+        // Leave the rest of the state intact if sending a keep-alive packet, since those
+        // carry a fake segment (which the remote discards without looking at the
+        // acknowledgement number and window it carries).
+        if is_keep_alive {
+            return Ok(());
+        }
+
+        // Every other segment, including a zero-window probe, carries our current
         // acknowledgement number and window; remember what we advertised, since incoming
         // segments are trimmed to that window.
         self.remote_last_ack = repr.ack_number;
@@ -2842,12 +2849,6 @@ impl<'a> Socket<'a> {
         // Leave the rest of the state intact if sending a zero-window probe.
         if is_zero_window_probe {
             self.timer.rewind_zero_window_probe(cx.now());
-            return Ok(());
-        }
-
-        // Leave the rest of the state intact if sending a keep-alive packet, since those
-        // carry a fake segment.
-        if is_keep_alive {
             return Ok(());
         }
 
